@@ -105,6 +105,11 @@ def deriveNonStd {Pt} (C : Curve Pt) (hmac : List UInt8 → List UInt8 → List 
     | none => .error .badPub
     | some q => .ok ⟨k.version, k.depth + 1, fp, i, cc, C.ser (C.add p q), false⟩
 
+/-- the inclusion proof cut into 32-byte nodes -/
+def chunk32 : Nat → List UInt8 → List (List UInt8)
+  | 0, _ => []
+  | f+1, l => if l = [] then [] else l.take 32 :: chunk32 f (l.drop 32)
+
 inductive CbErr | tooSmall | tooLarge | badLength | pubkey
 deriving DecidableEq, Repr
 
@@ -119,6 +124,6 @@ def parseControlBlock (validX : List UInt8 → Bool) (b : List UInt8) : Except C
       let key := rest.take 32
       if !validX key then .error .pubkey else
       let proof := rest.drop 32
-      .ok ⟨h &&& 1 = 1, h &&& 0xfe, key, (List.range (proof.length / 32)).map (fun i => (proof.drop (32 * i)).take 32)⟩
+      .ok ⟨h &&& 1 = 1, h &&& 0xfe, key, chunk32 (proof.length / 32) proof⟩
 
 end BV.C16
